@@ -5,5 +5,5 @@ cd "$(dirname "$0")/.."
 ID="$1"; SB="${2:-20}"
 python3 tools/install_seed.py /tmp/mut5/out-$ID "i$ID" r5 2>&1 | tee -a /tmp/mut5/install-$ID.log
 names=$(ls seeded | grep "^$ID-r5" | tr '\n' ',' | sed 's/,$//')
-[ -n "$names" ] && python3 tools/run_sens.py --seeded --no-suite --slots 1 --slot-base "$SB" --only "$names" --out /tmp/mut5/first-$ID.json 2>&1 | tee -a /tmp/mut5/install-$ID.log
+[ -n "$names" ] && python3 tools/run_sens.py --seeded --no-suite --slots 1 --slot-base "$SB" --commit 92624b8 --only "$names" --out /tmp/mut5/first-$ID.json 2>&1 | tee -a /tmp/mut5/install-$ID.log
 git -C /repo worktree remove --force /tmp/vmut/i$ID/repo 2>/dev/null; rm -rf /tmp/vmut/i$ID
